@@ -256,8 +256,19 @@ func TestC16(t *testing.T) {
 
 	// ---------- SUBSCRIBE / UNSUBSCRIBE / SUBACK with 0..N tuples
 	for rep := 0; rep < reps*3; rep++ {
-		for _, nt := range []int{0, 1, 2, 5, 40, 400} {
+		nts := []int{0, 1, 2, 5, 40, 400}
+		if rep == 0 { // once: every tuple count up to 140 and around 255/256 (size classes of small buffers)
+			nts = nil
+			for k := 0; k <= 140; k++ {
+				nts = append(nts, k)
+			}
+			nts = append(nts, 254, 255, 256, 257, 400)
+		}
+		for _, nt := range nts {
 			for _, tl := range []int{0, 1, 30, 127, 128, 1000} {
+				if rep == 0 && nt > 5 && tl != 1 && tl != 30 {
+					continue
+				}
 				if !mine() {
 					continue
 				}
